@@ -24,6 +24,9 @@ var evalCorpus = []string{
 	"RRRRRRRR/RR6/8/8/8/8/k7/7K b - - 0 1",
 	"NNNNNNNN/NN6/8/8/8/8/k7/7K b - - 0 1",
 	"4k3/pppppppp/8/8/8/8/8/QQQQKQQQ w - - 0 1",
+	// the most material legal chess allows one side (all eight pawns promoted to queens) against a bare king
+	"7k/8/8/8/8/8/QNQQQRBN/KQQQQQRB w - - 0 1",
+	"7k/8/8/8/8/8/QNQQQRBN/KQQQQQRB b - - 0 1",
 }
 
 // random material on an otherwise legal skeleton: promotion-heavy and sparse configurations
